@@ -137,15 +137,8 @@ def _one(eng, e, gen, view, s, kind):
     # dict / set: fresh container described by quantified facts
     ckind = "dict" if kind == "dict" else "set"
     ref = eng.alloc(s, ckind)
-    old = s.heap
-    new = old.havoc(["dlen", "dkeys", "dhas", "didx", "dval"], [], "comp")
-    new.alloc = old.alloc
-    r = z3.Int("fr_r")
-    for kd in ("dlen", "dkeys", "dhas", "didx", "dval"):
-        s.assume(z3.ForAll([r], z3.Implies(r != ref, z3.Select(new.arr[kd], r) == z3.Select(old.arr[kd], r)),
-                           patterns=[z3.Select(new.arr[kd], r)]))
+    new, d = s.heap.fresh_dict_at(ref, "comp")
     s.heap = new
-    h = new
     if kind == "set":
         key_t, val_t = elt_t, VNone
     kk = z3.Const("ck", Val)
@@ -155,19 +148,19 @@ def _one(eng, e, gen, view, s, kind):
     keep = z3.And(inrange, cond_term)
     last = z3.Function(smt.fresh_name("comp_last"), Val, smt.I)
     first = z3.Function(smt.fresh_name("comp_first"), Val, smt.I)
-    s.assume(*h.dict_wf(ref))
-    s.assume(h.dlen(ref) <= n,
-             z3.ForAll([i], z3.Implies(keep, h.dhas(ref, key_t))),
-             z3.ForAll([kk], z3.Implies(h.dhas(ref, kk),
+    s.assume(*d.wf())
+    s.assume(d.n <= n,
+             z3.ForAll([i], z3.Implies(keep, d.has(key_t))),
+             z3.ForAll([kk], z3.Implies(d.has(kk),
                                         z3.And(0 <= last(kk), last(kk) < n, at(last(kk), cond_term),
                                                at(last(kk), key_t) == kk,
-                                               h.dget(ref, kk) == at(last(kk), val_t),
+                                               d.val(kk) == at(last(kk), val_t),
                                                0 <= first(kk), first(kk) < n, at(first(kk), cond_term),
                                                at(first(kk), key_t) == kk)),
-                       patterns=[h.dhas(ref, kk)]),
-             z3.ForAll([kk, j], z3.Implies(z3.And(h.dhas(ref, kk), 0 <= j, j < n, at(j, cond_term), at(j, key_t) == kk),
+                       patterns=[d.has(kk)]),
+             z3.ForAll([kk, j], z3.Implies(z3.And(d.has(kk), 0 <= j, j < n, at(j, cond_term), at(j, key_t) == kk),
                                            z3.And(first(kk) <= j, j <= last(kk)))),
-             z3.ForAll([kk, k2], z3.Implies(z3.And(h.dhas(ref, kk), h.dhas(ref, k2)),
-                                            (h.didx(ref, kk) < h.didx(ref, k2)) == (first(kk) < first(k2))),
-                       patterns=[z3.MultiPattern(h.didx(ref, kk), h.didx(ref, k2))]))
+             z3.ForAll([kk, k2], z3.Implies(z3.And(d.has(kk), d.has(k2)),
+                                            (d.idx(kk) < d.idx(k2)) == (first(kk) < first(k2))),
+                       patterns=[z3.MultiPattern(d.idx(kk), d.idx(k2))]))
     return [(sv_ref(ref, ckind), s)]
